@@ -18,6 +18,7 @@ import AsynqModel.Drv.Families5
 import AsynqModel.Drv.Families6t
 import AsynqModel.Drv.Families6v
 import AsynqModel.Drv.Families6c
+import AsynqModel.Drv.Families7
 open AsynqModel
 
 /-- dispatch one case to the model of its mode -/
@@ -91,6 +92,7 @@ def handleCase (mode : String) (id : Nat) (hdr body : List Sexp) : String :=
   | "composite" => Drv.Families6c.composite id hdr body
   | "hookenter" => Drv.Families6c.hookenter id hdr body
   | "afterthrow" => Drv.Families6c.afterthrow id hdr body
+  | "sharedread" => Drv.Families7.sharedread id hdr body
   | "futures" => Drv.Futures.handle id hdr body
   | "futsubs" => Drv.Futures.handleSubs id hdr body
   | "futcopy" => Drv.Futures.handleCopy id hdr body
